@@ -692,6 +692,49 @@ class StmtMixin(object):
             self.frame.qualname, spec.ordinal, spec.abstract.get("why", ""), "; ".join(n for n, _ in spec.abstract.get("assume", []))))
         self.path.event("loop_abstract", spec.ordinal)
 
+    def for_cut_opaque(self, node, env, it, spec):
+        """Cut loop over an iterator whose items come from an assumed protocol (length unknown): the
+        iteration branch takes an arbitrary next item allowed by the protocol; the exit branch assumes
+        the invariant plus the protocol's exhaustion fact."""
+        self.check_invariants(spec, env, "establish")
+        if self.path.nondet("loop%d" % spec.ordinal):
+            self.havoc_loop(spec, node.body, env)
+            self.assume_invariants(spec, env)
+            item, cond, k = self.externals.arbitrary_item(self, it, "it%d" % spec.ordinal)
+            self.path.assume(cond)
+            self.assign(node.target, item, env)
+            self.path.event("loop_iter", spec.ordinal, k, it)
+            self.frame.active_hints = list(spec.hints)
+            self.frame.hints_done = set()
+            self.flush_hints(env)
+            try:
+                self.exec_block(node.body, env)
+            except ContinueEx:
+                pass
+            except BreakEx:
+                return
+            self.path.event("loop_iter_end", spec.ordinal, k)
+            self.check_invariants(spec, env, "preserve")
+            raise PathEnd()
+        self.havoc_loop(spec, node.body, env)
+        self.assume_invariants(spec, env)
+        fact = None
+        for plug in self.externals.plugins:
+            fn = getattr(plug, "exhausted_fact", None)
+            if fn is not None:
+                fact = fn(self, it)
+                if fact is not None:
+                    break
+        if fact is not None:
+            self.assume_spec_fact(fact)
+        self.frame.active_hints = list(spec.hints)
+        self.frame.hints_done = set()
+        self.poison_assigned([ast.Assign(targets=[node.target], value=ast.Constant(0))], env, "loop variable after an iterator loop")
+        self.exec_block(node.orelse, env)
+
+    def assume_spec_fact(self, fact):
+        self.path.assume(fact)
+
     def is_reyield(self, node):
         if len(node.body) != 1 or node.orelse:
             return False
@@ -781,6 +824,8 @@ class StmtMixin(object):
 
                 def elem(k, _s=seq):
                     return _s.at(k)
+            elif isinstance(seq, Opaque) and self.externals is not None and self.externals.arbitrary_item(self, seq, "probe") is not None:
+                return self.for_cut_opaque(node, env, seq, spec)
             else:
                 raise OutOfSubset("for loop with invariant over %r" % (it,))
         env.set(ghost, 0)
